@@ -14,7 +14,7 @@ def check(run):
     quick = run.tier == "quick"
     g = tsgen.TsGen(run.seed + 900)
     r = random.Random(run.seed + 901)
-    n = 150 if quick else 2500
+    n = 150 if quick else 6000
     progs, splits = [], []
     for i in range(n):
         decls, parsers = g.forced_program(i) if i % 4 == 0 else g.program()
@@ -26,7 +26,7 @@ def check(run):
     POOL = ["lib/a", "lib/b", "x-y", "x_y", "m1", "deep/er/c", "models/user", "models/admin", "user", "a/x", "a/y", "b/x", "b/y"]
     LAYOUTS = [["models/user", "models/admin", "user"], ["a/x", "a/y", "b/x", "b/y"], ["a/x", "b/x", "a/y"], ["deep/er/c", "deep/c", "c"],
                ["lib/a", "lib/b", "a"]]
-    for i in range(40 if quick else 500):
+    for i in range(40 if quick else 1500):
         if i % 3 == 2:
             fs = list(r.choice(LAYOUTS)); r.shuffle(fs)
         else:
